@@ -59,6 +59,17 @@ def _fixed(vals) -> bool:
     return True
 
 
+def _wf_root(present, excl, rev, excl_root, auto_ex) -> bool:
+    """closure mode goes beyond the quantifier only in one respect: sub-directories may hold mixed-case *.CMAKE files without a
+    lower-case sibling. The input directory itself still holds a non-excluded .cmake file when auto-exclusion is on."""
+    if len(present) != NE or len(excl) != NE or len(rev) != ND:
+        return False
+    if not auto_ex:
+        return True
+    dirs, excluded = _tree(present, excl, rev, excl_root)
+    return any(f.endswith(".cmake") and not excluded.get(pp.join(BASE, f), False) for f in dirs[BASE][1])
+
+
 def _settings(out, recursive, auto_ex, has_prefix, sep2, ext_t, ext_m):
     s = Settings()
     s.output.directory = out
@@ -148,11 +159,11 @@ def _compare_tree(settings, dirs, excluded, out, recursive, auto_ex, has_prefix,
 def check(present: List[bool], excl: List[bool], rev: List[bool], excl_root: bool, recursive: bool, auto_ex: bool,
           has_prefix: bool, sep2: bool, out_i: int, ext_t: bool, ext_m: bool, which: int, rev2: List[bool], cwd2: bool) -> bool:
     """
-    pre: _wf(present, excl, rev, excl_root, auto_ex)
+    pre: _wf(present, excl, rev, excl_root, auto_ex) or (MODE == "closure" and _wf_root(present, excl, rev, excl_root, auto_ex))
     pre: (not FIXP or all(present)) and (not FIXREV or not any(rev)) and (not FIXEXCL or not any(excl))
     pre: _fixed(dict(recursive=recursive, auto_ex=auto_ex, has_prefix=has_prefix, sep2=sep2, out_i=out_i, ext_t=ext_t, ext_m=ext_m, excl_root=excl_root))
     pre: 0 <= out_i < len(OUTS) and 0 <= which < max(1, len(FILES))
-    pre: (len(rev2) == ND) if MODE == "rel" else (len(rev2) == 0 and not cwd2)
+    pre: (len(rev2) == ND) if MODE == "rel" else (len(rev2) == 0 and (MODE == "hist" or not cwd2))
     pre: MODE in ("file", "fail") or which == 0
     post: _
     """
@@ -177,6 +188,43 @@ def check(present: List[bool], excl: List[bool], rev: List[bool], excl_root: boo
         _run("." if cwd2 else BASE, s2)
         w2 = sorted(VFS.writes)
         return hc.report(w1 == w2, **args)
+    if MODE == "hist":
+        # C17: documenting another input BEFORE, in the same run with the same Settings object (as main() does), changes nothing
+        _run(BASE, settings)
+        w1 = sorted(VFS.writes)
+        dirs2 = dict(dirs)
+        dirs2["/w/other"] = (["sub"], ["o.cmake"])
+        dirs2["/w/other/sub"] = ([], ["p.cmake"])
+        dirs2["/w"] = (["other"], ["lone.cmake"])
+        VFS.reset(dirs2, excluded)
+        s2 = _settings(out, recursive, auto_ex, has_prefix, sep2, ext_t, ext_m)
+        _run("/w/other" if cwd2 else "/w/lone.cmake", s2)
+        VFS.writes, VFS.mkdirs, VFS.prints, VFS.docs, VFS.asked = [], [], [], [], []
+        _run(BASE, s2)
+        w2 = sorted(VFS.writes)
+        return hc.report(w1 == w2, **args)
+    if MODE == "closure":
+        # beyond the quantifier (any tree): whatever is processed, the toctrees are closed and complete
+        _run(BASE, settings)
+        written = {}
+        for (p, text) in VFS.writes:
+            written[p] = text
+        ok = True
+        referenced = set()
+        for p in written:
+            if p.endswith("/index.rst"):
+                title, toc, fine = vfslib.parse_index(written[p])
+                ok = ok and fine
+                d = pp.dirname(p)
+                for e in toc:
+                    target = pp.join(d, e) if e.endswith("/index.rst") else pp.join(d, e + ".rst")
+                    referenced.add(target)
+                    ok = ok and target in written               # no toctree entry lacks a generated target
+        outabs = pp.normpath(pp.join(VFS.cwd, out))
+        for p in written:
+            if p != pp.join(outabs, "index.rst"):
+                ok = ok and p in referenced                     # every generated page is reachable
+        return hc.report(ok, **args)
     if MODE == "file":
         # lone input file: title / module name = base name (with prefix and separator when a prefix is configured)
         f = FILES[which]
